@@ -655,20 +655,27 @@ Proof.
       apply IH.
 Qed.
 
-(* the part of initialize after the decision to accept it and after the statistics were rebuilt *)
-Definition yinit_body (hf : nat) (y : ysim) (r : repl) (m1 : mdl) : ysim :=
+(* the part of initialize after the decision to accept it and after the statistics were rebuilt:
+   construct_model from the state [ya]; a failing construct body aborts initialize *)
+Definition yinit_tail (hf : nat) (r : repl) (ya : ysim) : ysim * cres :=
+  let '(y3, failed) := yexec nint M hf InConstruct ya (hbody M 0) in
+  if failed then (with_sim y3 (set_ps PNotInit (set_rs RNotInit (y_sim y3))), ResRaised)
+  else
+    let s5 := set_ps PInit (set_rs RInit (y_sim y3)) in
+    let s6 := if r_warm r <? clock s5 then raise_flag s5
+              else let e := mkEv (r_warm r) 10 (nid s5) HWarm 0 in
+                   set_nid (nid s5 + 1) (set_pend (ins e (pend s5)) s5) in
+    (with_sim y3 s6, ResOk).
+
+Definition yinit_pre (y : ysim) (r : repl) (m1 : mdl) : ysim :=
   let s := y_sim y in
   let s0 := set_pend [] s in
   let s1 := match worker s0 with WNone => s0 | _ => do_cleanup s0 end in
   let s2 := set_created [] (set_clock (r_start r) (set_rep (Some r) (set_worker WAlive s1))) in
-  let ya := mkY s2 (initial_subs M) (ym_streams M) 0 (y_dlv y) (y_drw y) m1 (y_pre y) [] in
-  let '(y3, failed) := yexec nint M hf InConstruct ya (hbody M 0) in
-  let y4 := if failed then yflag y3 else y3 in
-  let s5 := set_ps PInit (set_rs RInit (y_sim y4)) in
-  let s6 := if r_warm r <? clock s5 then raise_flag s5
-            else let e := mkEv (r_warm r) 10 (nid s5) HWarm 0 in
-                 set_nid (nid s5 + 1) (set_pend (ins e (pend s5)) s5) in
-  with_sim y4 s6.
+  mkY s2 (initial_subs M) (ym_streams M) 0 (y_dlv y) (y_drw y) m1 (y_pre y) [].
+
+Definition yinit_body (hf : nat) (y : ysim) (r : repl) (m1 : mdl) : ysim := fst (yinit_tail hf r (yinit_pre y r m1)).
+Definition yinit_res (hf : nat) (y : ysim) (r : repl) (m1 : mdl) : cres := snd (yinit_tail hf r (yinit_pre y r m1)).
 
 Lemma ydo_init_eq hf y r :
   ydo_init nint M hf y r =
@@ -677,85 +684,73 @@ Lemma ydo_init_eq hf y r :
     let n := length (obs (y_sim y)) in
     let m0 := mkMdl [] (map (cut_obj n) (m_objs (y_mdl y))) in
     if snd (build_stats n (ym_stats M) m0)
-    then (yinit_body hf y r (fst (build_stats n (ym_stats M) m0)), ResOk, false)
+    then (yinit_body hf y r (fst (build_stats n (ym_stats M) m0)), yinit_res hf y r (fst (build_stats n (ym_stats M) m0)), false)
     else (mkY (y_sim y) (y_subm y) (y_str y) (y_ser y) (y_dlv y) (y_drw y) (fst (build_stats n (ym_stats M) m0)) (y_pre y) (y_pdone y),
           ResRefused, true).
 Proof.
-  unfold ydo_init, yinit_body. destruct (running (y_sim y)); auto. cbv zeta.
+  unfold ydo_init, yinit_body, yinit_res, yinit_tail, yinit_pre. destruct (running (y_sim y)); auto. cbv zeta.
   destruct (build_stats _ (ym_stats M) _) as [m1 ok]. cbn [fst snd]. destruct ok; cbn [negb]; auto.
-  destruct (yexec nint M hf InConstruct _ (hbody M 0)) as [y3 failed]. reflexivity.
+  destruct (yexec nint M hf InConstruct _ (hbody M 0)) as [y3 failed]. destruct failed; reflexivity.
 Qed.
 
-Lemma yinit_body_rsps hf a b y r m1 : yinit_body hf (rsps a b y) r m1 = yinit_body hf y r m1.
+Lemma yinit_res_cases hf y r m1 : yinit_res hf y r m1 = ResOk \/ yinit_res hf y r m1 = ResRaised.
 Proof.
-  unfold yinit_body. cbv zeta.
-  replace (y_dlv (rsps a b y)) with (y_dlv y) by reflexivity.
-  replace (y_drw (rsps a b y)) with (y_drw y) by reflexivity.
-  replace (y_pre (rsps a b y)) with (y_pre y) by reflexivity.
-  replace (worker (set_pend [] (y_sim (rsps a b y)))) with (worker (y_sim y)) by reflexivity.
-  replace (worker (set_pend [] (y_sim y))) with (worker (y_sim y)) by reflexivity.
-  destruct (worker (y_sim y)) eqn:W.
-  - set (s2 := set_created [] (set_clock (r_start r) (set_rep (Some r) (set_worker WAlive (set_pend [] (y_sim y)))))).
-    set (ya := mkY s2 (initial_subs M) (ym_streams M) 0 (y_dlv y) (y_drw y) m1 (y_pre y) []).
-    replace (mkY (set_created [] (set_clock (r_start r) (set_rep (Some r) (set_worker WAlive
-               (set_pend [] (y_sim (rsps a b y))))))) (initial_subs M) (ym_streams M) 0 (y_dlv y) (y_drw y) m1 (y_pre y) [])
-      with (rsps a b ya) by (unfold rsps, ya, s2; cbn [y_sim with_sim]; destruct (y_sim y); reflexivity).
-    unfold yexec. rewrite ymachine_construct_rsps.
-    destruct (ymachine nint M hf InConstruct ya (map IAct (hbody M 0))) as [y3 fl]. cbn [fst snd].
-    destruct fl.
-    + replace (yflag (rsps a b y3)) with (rsps a b (yflag y3)) by (unfold yflag, rsps; cbn; destruct (y_sim y3); reflexivity).
-      unfold rsps at 1 2 3. cbn [y_sim with_sim]. rewrite set_rsps_collapse.
-      unfold rsps, with_sim. cbn. reflexivity.
-    + unfold rsps at 1 2 3. cbn [y_sim with_sim]. rewrite set_rsps_collapse.
-      unfold rsps, with_sim. cbn. reflexivity.
-  - replace (do_cleanup (set_pend [] (y_sim (rsps a b y)))) with (do_cleanup (set_pend [] (y_sim y)))
-      by (unfold rsps; cbn [y_sim with_sim]; destruct (y_sim y); reflexivity). reflexivity.
-  - replace (do_cleanup (set_pend [] (y_sim (rsps a b y)))) with (do_cleanup (set_pend [] (y_sim y)))
-      by (unfold rsps; cbn [y_sim with_sim]; destruct (y_sim y); reflexivity). reflexivity.
+  unfold yinit_res, yinit_tail. destruct (yexec nint M hf InConstruct _ (hbody M 0)) as [y3 failed].
+  destruct failed; auto.
 Qed.
+
+Lemma yinit_tail_rsps hf r a b ya : yinit_tail hf r (rsps a b ya) = yinit_tail hf r ya.
+Proof.
+  unfold yinit_tail, yexec. rewrite ymachine_construct_rsps.
+  destruct (ymachine nint M hf InConstruct ya (map IAct (hbody M 0))) as [y3 fl]. cbn [fst snd].
+  destruct fl; unfold rsps; cbn [y_sim with_sim]; rewrite set_rsps_collapse; reflexivity.
+Qed.
+
+Lemma yinit_pre_rsps a b y r m1 :
+  yinit_pre (rsps a b y) r m1
+  = match worker (y_sim y) with WNone => rsps a b (yinit_pre y r m1) | _ => yinit_pre y r m1 end.
+Proof.
+  unfold yinit_pre, rsps. cbn [y_sim with_sim y_dlv y_drw y_pre].
+  destruct (y_sim y) as [ck pd ni r0 p0 bd ic sg wk rp cr cn tr ou nt ob fl]. destruct wk; reflexivity.
+Qed.
+
+Lemma yinit_both_rsps hf a b y r m1 :
+  yinit_tail hf r (yinit_pre (rsps a b y) r m1) = yinit_tail hf r (yinit_pre y r m1).
+Proof. rewrite yinit_pre_rsps. destruct (worker (y_sim y)); auto using yinit_tail_rsps. Qed.
+
+Lemma yinit_body_rsps hf a b y r m1 : yinit_body hf (rsps a b y) r m1 = yinit_body hf y r m1.
+Proof. unfold yinit_body. rewrite yinit_both_rsps. reflexivity. Qed.
+
+Lemma yinit_res_rsps hf a b y r m1 : yinit_res hf (rsps a b y) r m1 = yinit_res hf y r m1.
+Proof. unfold yinit_res. rewrite yinit_both_rsps. reflexivity. Qed.
 
 End YInit.
 
 Section YTop.
 Variable nint : Z -> Z -> Z -> Z.
 
-Definition yinit_tail (M : ymodel) (hf : nat) (r : repl) (ya : ysim) : ysim :=
-  let '(y3, failed) := yexec nint M hf InConstruct ya (hbody M 0) in
-  let y4 := if failed then yflag y3 else y3 in
-  let s5 := set_ps PInit (set_rs RInit (y_sim y4)) in
-  let s6 := if r_warm r <? clock s5 then raise_flag s5
-            else let e := mkEv (r_warm r) 10 (nid s5) HWarm 0 in
-                 set_nid (nid s5 + 1) (set_pend (ins e (pend s5)) s5) in
-  with_sim y4 s6.
-
-Lemma yinit_body_tail M hf y r m1 :
-  yinit_body nint M hf y r m1 =
-  yinit_tail M hf r
-    (mkY (set_created [] (set_clock (r_start r) (set_rep (Some r) (set_worker WAlive
-            (match worker (set_pend [] (y_sim y)) with WNone => set_pend [] (y_sim y)
-             | _ => do_cleanup (set_pend [] (y_sim y)) end)))))
-         (initial_subs M) (ym_streams M) 0 (y_dlv y) (y_drw y) m1 (y_pre y) []).
-Proof. reflexivity. Qed.
-
 Variable B : ybase.
 Hypothesis B_le : (length (l_ob (yb_t B)) <= length (l_ob (yb_s B)))%nat.
 
-Lemma yinit_tail_ysim M hf r ya ta : YSim B ya ta -> YSim B (yinit_tail M hf r ya) (yinit_tail M hf r ta).
+Lemma yinit_tail_ysim M hf r ya ta :
+  YSim B ya ta ->
+  YSim B (fst (yinit_tail nint M hf r ya)) (fst (yinit_tail nint M hf r ta))
+  /\ snd (yinit_tail nint M hf r ta) = snd (yinit_tail nint M hf r ya).
 Proof.
   intros Y. unfold yinit_tail, yexec.
   destruct (ymachine_ysim nint B M hf InConstruct ya ta (map IAct (hbody M 0)) Y) as [Y3 E3].
   destruct (ymachine nint M hf InConstruct ya _) as [y3 fl], (ymachine nint M hf InConstruct ta _) as [t3 fl'].
-  cbn [fst snd] in *. subst fl'.
-  assert (Y4 : YSim B (if fl then yflag y3 else y3) (if fl then yflag t3 else t3))
-    by (destruct fl; auto using yflag_ysim).
-  destruct Y4 as [H4 R4]. apply ysim_with_sim; auto.
-  assert (H5 : IdSimX (yb_X B) (yb_X' B) (yb_s B) (yb_t B) (set_ps PInit (set_rs RInit (y_sim (if fl then yflag y3 else y3))))
-                                       (set_ps PInit (set_rs RInit (y_sim (if fl then yflag t3 else t3)))))
-    by (apply set_ps_idsim, set_rs_idsim; auto).
-  rewrite (idsim_clock _ _ _ _ _ _ H5).
-  destruct (r_warm r <? clock (set_ps PInit (set_rs RInit (y_sim (if fl then yflag y3 else y3))))).
-  - apply raise_flag_idsim; auto.
-  - apply warm_insert_idsim; auto.
+  cbn [fst snd] in *. subst fl'. destruct Y3 as [H3 R3].
+  destruct fl; cbn [fst snd]; (split; [|reflexivity]).
+  - apply ysim_with_sim; auto. apply set_ps_idsim, set_rs_idsim; auto.
+  - apply ysim_with_sim; auto.
+    assert (H5 : IdSimX (yb_X B) (yb_X' B) (yb_s B) (yb_t B) (set_ps PInit (set_rs RInit (y_sim y3)))
+                                       (set_ps PInit (set_rs RInit (y_sim t3))))
+      by (apply set_ps_idsim, set_rs_idsim; auto).
+    rewrite (idsim_clock _ _ _ _ _ _ H5).
+    destruct (r_warm r <? clock (set_ps PInit (set_rs RInit (y_sim y3)))).
+    + apply raise_flag_idsim; auto.
+    + apply warm_insert_idsim; auto.
 Qed.
 
 Lemma idsim_obs_len_gen s t :
@@ -779,14 +774,18 @@ Proof.
   pose proof (cut_all_mrel _ (yb_N B) _ _ _ _ EL (yr_mdl _ _ _ R)) as M0.
   destruct (build_stats_mrel _ (yb_N B) _ _ (ym_stats M) _ _ EL M0) as [M1 E1].
   rewrite E1.
-  destruct (snd (build_stats (length (obs (y_sim t))) (ym_stats M) _)); cbn [fst snd]; split; auto.
-  - rewrite !yinit_body_tail. apply yinit_tail_ysim.
-    split; cbn [y_sim].
+  destruct (snd (build_stats (length (obs (y_sim t))) (ym_stats M) _)); cbn [fst snd].
+  2: { split; auto. split; [exact H|]. destruct R. constructor; cbn; auto. }
+  assert (Ya : YSim B (yinit_pre M y r (fst (build_stats (length (obs (y_sim y))) (ym_stats M)
+                         (mkMdl [] (map (cut_obj (length (obs (y_sim y)))) (m_objs (y_mdl y)))))))
+                      (yinit_pre M t r (fst (build_stats (length (obs (y_sim t))) (ym_stats M)
+                         (mkMdl [] (map (cut_obj (length (obs (y_sim t)))) (m_objs (y_mdl t)))))))).
+  { unfold yinit_pre. split; cbn [y_sim].
     + apply forget_created_idsim, set_clock_idsim, set_rep_idsim, set_worker_idsim.
       pose proof (clear_idsim _ _ _ _ _ _ H) as H0.
       rewrite (idsim_worker _ _ _ _ _ _ H0). destruct (worker (set_pend [] (y_sim y))); auto using do_cleanup_idsim.
-    + destruct R. constructor; cbn; auto.
-  - split; [exact H|]. destruct R. constructor; cbn; auto.
+    + destruct R. constructor; cbn; auto. }
+  destruct (yinit_tail_ysim M hf r _ _ Ya) as [Yb Eb]. unfold yinit_body, yinit_res. auto.
 Qed.
 
 Theorem ydo_cmd_ysim M fuel hf c y t :
@@ -869,7 +868,8 @@ Theorem y_reinit_fresh M r y pre' g fuel hf h :
   let ra := y_hist nint fuel hf a h in
   let rb := y_hist nint fuel hf b h in
   let ya := fst (fst ra) in let yb := fst (fst rb) in
-  snd (fst (ydo_init nint M hf y r)) = ResOk
+  (snd (fst (ydo_init nint M hf y r)) = snd (fst (ydo_init nint M hf (y0p (strat (y_sim y)) pre') r))
+   /\ snd (fst (ydo_init nint M hf y r)) <> ResRefused)
   /\ snd (fst ra) = snd (fst rb) /\ snd ra = snd rb
   /\ logs_of (y_sim ya) = lapp (logs_of (y_sim yb)) (logs_of (y_sim y))
   /\ y_dlv ya = y_dlv yb ++ y_dlv y
@@ -883,7 +883,8 @@ Proof.
   assert (LB : yb_L B = length (obs (y_sim y))) by (unfold yb_L, B; cbn; lia).
   (* the two initialised states are related *)
   assert (Y0 : YSim B (fst (fst (ydo_init nint M hf y r))) (fst (fst (ydo_init nint M hf (y0p (strat (y_sim y)) pre') r)))
-               /\ snd (fst (ydo_init nint M hf y r)) = ResOk).
+               /\ (snd (fst (ydo_init nint M hf y r)) = snd (fst (ydo_init nint M hf (y0p (strat (y_sim y)) pre') r))
+                   /\ snd (fst (ydo_init nint M hf y r)) <> ResRefused)).
   { rewrite !ydo_init_eq, R. replace (running (y_sim (y0p (strat (y_sim y)) pre'))) with false by reflexivity. cbv zeta.
     set (L := length (obs (y_sim y))). set (N := length (m_objs (y_mdl y))).
     assert (M0 : MdlRel L N (mkMdl [] (map (cut_obj L) (m_objs (y_mdl y)))) (mkMdl [] (map (cut_obj 0) []))).
@@ -895,20 +896,24 @@ Proof.
     pose proof (build_stats_ok 0%nat (ym_stats M) (mkMdl [] (map (cut_obj 0) [])) ND (fun k _ => eq_refl)) as Ok.
     replace (length (obs (y_sim (y0p (strat (y_sim y)) pre')))) with 0%nat by reflexivity.
     replace (m_objs (y_mdl (y0p (strat (y_sim y)) pre'))) with (@nil sobj) by reflexivity.
-    rewrite E1, Ok. cbn [fst snd]. split; auto.
-    rewrite <- (yinit_body_rsps nint M hf PNotInit RNotInit y).
-    rewrite !yinit_body_tail. apply yinit_tail_ysim.
-    split; cbn [y_sim].
-    - replace (strat (y_sim y)) with (strat (y_sim (rsps PNotInit RNotInit y))) by reflexivity.
-      replace (worker (set_pend [] (y_sim (y0p (strat (y_sim (rsps PNotInit RNotInit y))) pre')))) with WNone by reflexivity.
-      cbv iota. unfold B. cbn [yb_s yb_t yb_X yb_X'].
-      replace (logs_of (y_sim y)) with (logs_of (y_sim (rsps PNotInit RNotInit y))) by reflexivity.
-      apply (init_pre_idsimx (y_pre y) pre' g); auto; reflexivity.
-    - constructor; try reflexivity.
-      + exists []. auto.
-      + exists []. auto.
-      + rewrite LB. exact M1.
-      + split; reflexivity. }
+    rewrite E1, Ok. cbn [fst snd].
+    rewrite <- (yinit_body_rsps nint M hf PNotInit RNotInit y), <- (yinit_res_rsps nint M hf PNotInit RNotInit y).
+    set (m1 := fst (build_stats L (ym_stats M) _)) in *. set (m1' := fst (build_stats 0 (ym_stats M) _)) in *.
+    assert (Ya : YSim B (yinit_pre M (rsps PNotInit RNotInit y) r m1) (yinit_pre M (y0p (strat (y_sim y)) pre') r m1')).
+    { unfold yinit_pre. split; cbn [y_sim].
+      - replace (strat (y_sim y)) with (strat (y_sim (rsps PNotInit RNotInit y))) by reflexivity.
+        replace (worker (set_pend [] (y_sim (y0p (strat (y_sim (rsps PNotInit RNotInit y))) pre')))) with WNone by reflexivity.
+        cbv iota. unfold B. cbn [yb_s yb_t yb_X yb_X'].
+        replace (logs_of (y_sim y)) with (logs_of (y_sim (rsps PNotInit RNotInit y))) by reflexivity.
+        apply (init_pre_idsimx (y_pre y) pre' g); auto; reflexivity.
+      - constructor; try reflexivity.
+        + exists []. auto.
+        + exists []. auto.
+        + rewrite LB. exact M1.
+        + split; reflexivity. }
+    destruct (yinit_tail_ysim nint B M hf r _ _ Ya) as [Yb Eb]. unfold yinit_body, yinit_res.
+    split; [exact Yb|]. split; [symmetry; exact Eb|].
+    destruct (yinit_res_cases nint M hf (rsps PNotInit RNotInit y) r m1) as [Q|Q]; unfold yinit_res in Q; rewrite Q; discriminate. }
   destruct Y0 as [Y0 Ok0]. split; auto.
   destruct (y_hist_ysim nint B BL fuel hf h _ _ Y0) as (Y & E & E').
   destruct Y as [H Rr]. split; [symmetry; exact E|]. split; [symmetry; exact E'|].
